@@ -162,6 +162,24 @@ pub fn set_memory_usage(usage: u64) {
     CURRENT_MEMORY.store(usage, Ordering::SeqCst)
 }
 
+#[cfg(sentinel_verif)]
+#[doc(hidden)]
+pub fn verif_set_system_load(load: f64) {
+    *CURRENT_LOAD.lock().unwrap() = load;
+}
+
+#[cfg(sentinel_verif)]
+#[doc(hidden)]
+pub fn verif_set_cpu_usage(usage: f32) {
+    *CURRENT_CPU.lock().unwrap() = usage;
+}
+
+#[cfg(sentinel_verif)]
+#[doc(hidden)]
+pub fn verif_set_memory_usage(usage: u64) {
+    CURRENT_MEMORY.store(usage, Ordering::SeqCst)
+}
+
 #[cfg(test)]
 mod test {
     use super::*;
